@@ -257,7 +257,7 @@ def run(ctx):
         progs, hangs = generate(ctx, tag, fam, lay, c0, hooks, d, fixed, kd)
         progs = add_strategy(progs, n)
         # programs of the ttl family mostly sleep: many at a time inside one driver process
-        trace, info = run_programs(ctx, tag, progs, jobs=16 if fam == "ttl" else 1, shards=W)
+        trace, info = run_programs(ctx, tag, progs, jobs=48 if fam == "ttl" else 1, shards=W)
         ls = lib.read_lines(trace)
         s_, e_ = lib.run_of_line(ls, len(ls) // 2 + 1)
         sample = {"source": f"MC_MultiLayer {tag}", "trace": [json.loads(x) for x in ls[s_:e_]]}
